@@ -2276,7 +2276,7 @@ func init() {
 		Plan: func(tier string) fw.Plan {
 			nRand := 6000
 			if tier == "thorough" {
-				nRand = 150000
+				nRand = 600000
 			}
 			return fw.Plan{
 				Level: "exploration",
